@@ -1,3 +1,4 @@
+import MdsVerif.Gen.Ring
 /-!
 # Model of `ring.Ring` (ring/ring.go): doubly-linked circular chains on an explicit heap
 
@@ -6,6 +7,13 @@ is `Option Nat` (`none` = nil = the empty ring).  Cells are never reclaimed.
 `scan` (behind `Each`/`Len`) is the only loop that is not bounded by its
 argument; it carries fuel, `hang` = fuel exhausted (impossible on well-formed
 heaps, `Proofs/Ring.lean`).
+
+The pointer surgery of `Join`, `Pop` and the loop body of `New` is not written out here: the ordered tables
+of field assignments `Gen.Ring.joinAssigns`, `popAssigns`, `newAssigns` (with the locals and guards they
+use), which `extract/ring.go` regenerates from ring.go on every run, are *interpreted* statement by statement
+on the heap (`evalPath`, `bindLocals`, `execAssigns`).  `Proofs/Ring.lean` (`join_ss`, `pop_some`,
+`newLoop_succ'`, `new_def`, `at_some`) restates each function with the pinned statements written out;
+`Props.C10.C10_ring_current` pins every table and fact.
 -/
 namespace MdsVerif.Model.Ring
 
@@ -30,6 +38,59 @@ end Heap
 
 abbrev Ptr := Option Nat
 
+/-! ## interpreter for the regenerated assignment tables -/
+
+open Gen.Ring in
+def Heap.get (h : Heap) : Fld → Nat → Nat
+  | .next, i => h.nx i
+  | .prev, i => h.pv i
+
+open Gen.Ring in
+def Heap.setF (h : Heap) : Fld → Nat → Nat → Heap
+  | .next, i, j => h.setNext i j
+  | .prev, i, j => h.setPrev i j
+
+/-- values of the receiver, parameter and locals (`none` = nil) -/
+abbrev Env := Gen.Ring.Var → Ptr
+
+/-- the value of a pointer expression `root.f1.f2…` in heap `h`; the outer `none` is a nil dereference -/
+def evalPath (h : Heap) (env : Env) (p : Gen.Ring.Path) : Option Ptr :=
+  p.flds.foldl (fun c f => match c with
+    | some (some i) => some (some (h.get f i))
+    | _ => none) (some (env p.root))
+
+/-- `a1 == b1 || a2 == b2 || …`, left to right with short circuit; `none` = nil dereference -/
+def anyEq (h : Heap) (env : Env) : List (Gen.Ring.Path × Gen.Ring.Path) → Option Bool
+  | [] => some false
+  | (a, b) :: rest =>
+    match evalPath h env a, evalPath h env b with
+    | some x, some y => if x = y then some true else anyEq h env rest
+    | _, _ => none
+
+/-- `a1 != b1 && a2 != b2 && …`, left to right with short circuit -/
+def allNe (h : Heap) (env : Env) : List (Gen.Ring.Path × Gen.Ring.Path) → Option Bool
+  | [] => some true
+  | (a, b) :: rest =>
+    match evalPath h env a, evalPath h env b with
+    | some x, some y => if x = y then some false else allNe h env rest
+    | _, _ => none
+
+/-- `v1, v2 := e1, e2` -/
+def bindLocals (h : Heap) : Env → List (Gen.Ring.Var × Gen.Ring.Path) → Option Env
+  | env, [] => some env
+  | env, (v, p) :: rest =>
+    match evalPath h env p with
+    | some x => bindLocals h (fun w => if w = v then x else env w) rest
+    | none => none
+
+/-- the statements `target.fld = src`, in order, each evaluated in the heap left by the previous ones -/
+def execAssigns (env : Env) : Heap → List Gen.Ring.Assign → Option Heap
+  | h, [] => some h
+  | h, a :: rest =>
+    match evalPath h env a.target, evalPath h env a.src with
+    | some (some t), some (some v) => execAssigns env (h.setF a.fld t v) rest
+    | _, _ => none
+
 inductive Res (β : Type) where
   | ok (v : β) | panicNil | hang
 deriving Repr, DecidableEq
@@ -38,16 +99,14 @@ deriving Repr, DecidableEq
 def newLoop : Nat → Heap → Nat → Heap
   | 0, h, _ => h
   | k + 1, h, r =>
-    let (h1, e) := h.newRing
-    let h2 := h1.setNext e (h1.nx r)      -- elt.next = r.next
-    let h3 := h2.setPrev (h2.nx r) e      -- r.next.prev = elt
-    let h4 := h3.setPrev e r              -- elt.prev = r
-    let h5 := h4.setNext r e              -- r.next = elt
-    newLoop k h5 r
+    let (h1, e) := h.newRing                                   -- elt := newRing[T]()
+    -- elt.next = r.next; r.next.prev = elt; elt.prev = r; r.next = elt
+    let env : Env := fun | .r => some r | .elt => some e | _ => none
+    newLoop k ((execAssigns env h1 Gen.Ring.newAssigns).getD h1) r
 
 /-- `New(n)` -/
 def new (h : Heap) (n : Int) : Heap × Ptr :=
-  if n ≤ 0 then (h, none) else
+  if Gen.Ring.newNil n then (h, none) else
   let (h1, r) := h.newRing
   (newLoop (n.toNat - 1) h1 r, some r)
 
@@ -63,32 +122,39 @@ def of (h : Heap) (vs : List Int) : Heap × Ptr :=
   | (h1, some r) => (ofLoop vs h1 r, some r)
 
 /-- `r.Join(s)` -/
-def join (h : Heap) : Ptr → Ptr → Res (Heap × Ptr)
-  | none, none => .ok (h, none)        -- r == s
-  | none, some _ => .panicNil          -- r.next with r == nil
-  | some _, none => .panicNil          -- r.next == s is false, then s.prev with s == nil
-  | some r, some s =>
-    if r = s || h.nx r = s then .ok (h, none) else
-    let rnext := h.nx r
-    let sprev := h.pv s
-    let h1 := h.setNext r s            -- r.next = s
-    let h2 := h1.setPrev s r           -- s.prev = r
-    let h3 := h2.setNext sprev rnext   -- sprev.next = rnext
-    let h4 := h3.setPrev rnext sprev   -- rnext.prev = sprev
-    .ok (h4, some rnext)
+def join (h : Heap) (r s : Ptr) : Res (Heap × Ptr) :=
+  let env0 : Env := fun | .r => r | .s => s | _ => none
+  -- if r == s || r.next == s { return nil }
+  match anyEq h env0 Gen.Ring.joinEarly with
+  | none => .panicNil
+  | some true => .ok (h, none)
+  | some false =>
+    -- rnext, sprev := r.next, s.prev
+    match bindLocals h env0 Gen.Ring.joinLocals with
+    | none => .panicNil
+    | some env =>
+      -- r.next = s; s.prev = r; sprev.next = rnext; rnext.prev = sprev
+      match execAssigns env h Gen.Ring.joinAssigns with
+      | none => .panicNil
+      | some h' =>
+        -- return rnext
+        match evalPath h' env Gen.Ring.joinReturn with
+        | some p => .ok (h', p)
+        | none => .panicNil
 
 /-- `r.Pop()` (returns `r`) -/
 def pop (h : Heap) : Ptr → Heap
   | none => h
   | some r =>
-    if h.pv r ≠ r then
-      let rprev := h.pv r
-      let rnext := h.nx r
-      let h1 := h.setNext rprev (h.nx r)     -- rprev.next = r.next
-      let h2 := h1.setPrev rnext (h1.pv r)   -- rnext.prev = r.prev
-      let h3 := h2.setPrev r r
-      h3.setNext r r
-    else h
+    let env0 : Env := fun | .r => some r | _ => none
+    -- if r != nil && r.prev != r
+    match allNe h env0 Gen.Ring.popGuard with
+    | some true =>
+      -- rprev, rnext := r.prev, r.next; rprev.next = r.next; rnext.prev = r.prev; r.prev = r; r.next = r
+      match bindLocals h env0 Gen.Ring.popLocals with
+      | some env => (execAssigns env h Gen.Ring.popAssigns).getD h
+      | none => h
+    | _ => h
 
 /-- the loop of `At`: `for n > 0 { cur = next(cur); if cur == r { return nil }; n-- }` -/
 def atLoop (step : Nat → Nat) (r : Nat) : Nat → Nat → Ptr
@@ -101,7 +167,10 @@ def atLoop (step : Nat → Nat) (r : Nat) : Nat → Nat → Ptr
 def at_ (h : Heap) (r : Ptr) (n : Int) : Ptr :=
   match r with
   | none => none
-  | some r => if n < 0 then atLoop h.pv r (-n).toNat r else atLoop h.nx r n.toNat r
+  | some r =>
+    -- next := (*Ring[T]).Next; if n < 0 { n = -n; next = (*Ring[T]).Prev }
+    if Gen.Ring.atNeg n then atLoop (h.get Gen.Ring.atBack) r (Gen.Ring.atNegated n).toNat r
+    else atLoop (h.get Gen.Ring.atFwd) r n.toNat r
 
 /-- `r.Peek(n)` -/
 def peek (h : Heap) (r : Ptr) (n : Int) : Int × Bool :=
